@@ -5,6 +5,8 @@
 #include <time.h>
 
 #include <atomic>
+#include <cmath>
+#include <functional>
 #include <memory>
 #include <numeric>
 #include <thread>
@@ -258,17 +260,37 @@ typedef phosg::Vector3<int64_t> V3;
 typedef phosg::Vector4<int64_t> V4;
 typedef phosg::Matrix4<int64_t> M4;
 
-// component i as an lvalue (at(i) returns a copy)
-static int64_t& comp(V2& v, size_t i) { return i == 0 ? v.x : v.y; }
-static int64_t& comp(V3& v, size_t i) { return i == 0 ? v.x : i == 1 ? v.y : v.z; }
-static int64_t& comp(V4& v, size_t i) { return i == 0 ? v.x : i == 1 ? v.y : i == 2 ? v.z : v.w; }
+typedef phosg::Vector2<double> V2d;
+typedef phosg::Vector3<double> V3d;
+typedef phosg::Vector4<double> V4d;
+typedef phosg::Matrix4<double> M4d;
 
-template <typename V, size_t N>
-static void vec_laws(const int64_t* a, const int64_t* b, int64_t k, const V& va, const V& vb, const char* tn) {
+// component i as an lvalue (at(i) returns a copy)
+template <typename S>
+static S& comp(phosg::Vector2<S>& v, size_t i) { return i == 0 ? v.x : v.y; }
+template <typename S>
+static S& comp(phosg::Vector3<S>& v, size_t i) { return i == 0 ? v.x : i == 1 ? v.y : v.z; }
+template <typename S>
+static S& comp(phosg::Vector4<S>& v, size_t i) { return i == 0 ? v.x : i == 1 ? v.y : i == 2 ? v.z : v.w; }
+
+// value equality of one component: the native == (for floating point the IEEE one: +0.0 equals -0.0), and two NaNs
+// (inf - inf, inf * 0 of the componentwise definition itself) count as the same result
+template <typename S>
+static bool same_value(S x, S y) {
+  if constexpr (std::is_floating_point_v<S>) return x == y || (std::isnan(x) && std::isnan(y));
+  else return x == y;
+}
+
+// The laws are written once for the scalar type S: int64_t (small integers, exact) and double (components from a set
+// of signed zeros, small dyadic values and infinities: every finite intermediate result is exact, so the componentwise
+// definition has one value whatever the order of evaluation). Operands never contain NaN (the strict weak order of the
+// property does not cover it); results may (inf - inf), and are compared NaN-aware.
+template <typename V, size_t N, typename S = int64_t>
+static void vec_laws(const S* a, const S* b, S k, const V& va, const V& vb, const char* tn) {
   auto eq = [&](const V& r, auto f, const char* op) {
     for (size_t i = 0; i < N; i++) {
-      int64_t e = f(i);
-      VCHECK(r.at(i) == e, cat(tn, "-", op), "component ", i, " is ", r.at(i), " expected ", e);
+      S e = f(i);
+      VCHECK(same_value<S>(r.at(i), e), cat(tn, "-", op), "component ", i, " is ", r.at(i), " expected ", e);
     }
   };
   eq(va + vb, [&](size_t i) { return a[i] + b[i]; }, "add");
@@ -279,7 +301,7 @@ static void vec_laws(const int64_t* a, const int64_t* b, int64_t k, const V& va,
   eq(va * k, [&](size_t i) { return a[i] * k; }, "mul-scalar");
   if (k != 0) {
     eq(va / k, [&](size_t i) { return a[i] / k; }, "div-scalar");
-    eq(va % k, [&](size_t i) { return a[i] % k; }, "mod-scalar");
+    if constexpr (std::is_integral_v<S>) eq(va % k, [&](size_t i) { return a[i] % k; }, "mod-scalar");
   }
   {
     V t = va;
@@ -302,15 +324,17 @@ static void vec_laws(const int64_t* a, const int64_t* b, int64_t k, const V& va,
       t = va;
       t /= k;
       eq(t, [&](size_t i) { return a[i] / k; }, "div-scalar-assign");
-      t = va;
-      t %= k;
-      eq(t, [&](size_t i) { return a[i] % k; }, "mod-scalar-assign");
+      if constexpr (std::is_integral_v<S>) {
+        t = va;
+        t %= k;
+        eq(t, [&](size_t i) { return a[i] % k; }, "mod-scalar-assign");
+      }
     }
   }
   // The same definitions when the right-hand operand is (a reference to) part of the left-hand object:
   // `v op= v.<component j>` must use the value the component had when the operator was called, `v op= v` likewise.
   for (size_t j = 0; j < N; j++) {
-    const int64_t s = a[j]; // the operand's value, copied before the operation
+    const S s = a[j]; // the operand's value, copied before the operation
     V t = va;
     V& r = (t += comp(t, j));
     VCHECK(&r == &t, cat(tn, "-compound-ref"), "+= (scalar) does not return *this");
@@ -325,9 +349,11 @@ static void vec_laws(const int64_t* a, const int64_t* b, int64_t k, const V& va,
       t = va;
       t /= comp(t, j);
       eq(t, [&](size_t i) { return a[i] / s; }, "div-scalar-assign-aliased");
-      t = va;
-      t %= comp(t, j);
-      eq(t, [&](size_t i) { return a[i] % s; }, "mod-scalar-assign-aliased");
+      if constexpr (std::is_integral_v<S>) {
+        t = va;
+        t %= comp(t, j);
+        eq(t, [&](size_t i) { return a[i] % s; }, "mod-scalar-assign-aliased");
+      }
     }
     // non-compound forms with the same operand: result componentwise, left operand unchanged
     t = va;
@@ -336,7 +362,7 @@ static void vec_laws(const int64_t* a, const int64_t* b, int64_t k, const V& va,
     eq(t * comp(t, j), [&](size_t i) { return a[i] * s; }, "mul-scalar-aliased");
     if (s != 0) {
       eq(t / comp(t, j), [&](size_t i) { return a[i] / s; }, "div-scalar-aliased");
-      eq(t % comp(t, j), [&](size_t i) { return a[i] % s; }, "mod-scalar-aliased");
+      if constexpr (std::is_integral_v<S>) eq(t % comp(t, j), [&](size_t i) { return a[i] % s; }, "mod-scalar-aliased");
     }
     eq(t, [&](size_t i) { return a[i]; }, "binary-op-modified-operand");
   }
@@ -346,9 +372,9 @@ static void vec_laws(const int64_t* a, const int64_t* b, int64_t k, const V& va,
     eq(t, [&](size_t i) { return a[i] + a[i]; }, "add-assign-self");
     t = va;
     t -= t;
-    eq(t, [&](size_t) { return int64_t(0); }, "sub-assign-self");
+    eq(t, [&](size_t i) { return a[i] - a[i]; }, "sub-assign-self");
   }
-  int64_t dot = 0, n1 = 0, n2 = 0;
+  S dot = 0, n1 = 0, n2 = 0;
   bool all_zero = true, same = true;
   for (size_t i = 0; i < N; i++) {
     dot += a[i] * b[i];
@@ -357,12 +383,18 @@ static void vec_laws(const int64_t* a, const int64_t* b, int64_t k, const V& va,
     all_zero &= (a[i] == 0);
     same &= (a[i] == b[i]);
   }
-  VCHECK(va.dot(vb) == dot, cat(tn, "-dot"), "dot is ", va.dot(vb), " expected ", dot);
-  VCHECK(va.norm1() == n1, cat(tn, "-norm1"), "norm1 is ", va.norm1(), " expected ", n1);
-  VCHECK(va.norm2() == n2, cat(tn, "-norm2"), "norm2 is ", va.norm2(), " expected ", n2);
-  VCHECK(fabs(va.norm() - sqrt(static_cast<double>(n2))) < 1e-12, cat(tn, "-norm"), "norm is ", va.norm());
+  VCHECK(same_value<S>(va.dot(vb), dot), cat(tn, "-dot"), "dot is ", va.dot(vb), " expected ", dot);
+  VCHECK(same_value<S>(va.norm1(), n1), cat(tn, "-norm1"), "norm1 is ", va.norm1(), " expected ", n1);
+  VCHECK(same_value<S>(va.norm2(), n2), cat(tn, "-norm2"), "norm2 is ", va.norm2(), " expected ", n2);
+  {
+    double nr = va.norm(), er = sqrt(static_cast<double>(n2));
+    VCHECK(same_value<double>(nr, er) || fabs(nr - er) < 1e-12, cat(tn, "-norm"), "norm is ", nr);
+  }
   VCHECK((!va) == all_zero, cat(tn, "-not"), "operator! is ", !va);
+  // == is the componentwise ==: for floating-point components the IEEE one (+0.0 equals -0.0)
   VCHECK((va == vb) == same && (va != vb) == !same, cat(tn, "-eq"), "== / != disagree with componentwise equality");
+  VCHECK((vb == va) == same && (vb != va) == !same, cat(tn, "-eq"), "== / != (operands swapped) disagree with componentwise equality");
+  VCHECK((va == va) && !(va != va), cat(tn, "-eq-reflexive"), "a != a");
   // lexicographic order
   bool lt = std::lexicographical_compare(a, a + N, b, b + N);
   bool gt = std::lexicographical_compare(b, b + N, a, a + N);
@@ -372,6 +404,22 @@ static void vec_laws(const int64_t* a, const int64_t* b, int64_t k, const V& va,
   VCHECK(!((va < vb) && (vb < va)), cat(tn, "-less-asymmetric"), "a<b and b<a");
   VCHECK(((va < vb) || (vb < va)) == !(va == vb), cat(tn, "-less-total"), "order not consistent with ==");
   VCHECK(V::dimensions() == N, cat(tn, "-dimensions"), "dimensions() is ", V::dimensions());
+  // consequences of the componentwise definitions, decided by the type's own ==: a - b == -(b - a), a + b == b + a,
+  // (a - b) + b == a where no component of the results is NaN (every finite value here is exact)
+  {
+    V d1 = va - vb, d2 = -(vb - va), s1 = va + vb, s2 = vb + va, z1 = va * S(0), z2 = vb * S(0);
+    auto no_nan = [&](const V& v) {
+      for (size_t i = 0; i < N; i++)
+        if (!(v.at(i) == v.at(i))) return false;
+      return true;
+    };
+    if (no_nan(d1) && no_nan(d2)) {
+      VCHECK(d1 == d2 && !(d1 != d2), cat(tn, "-antisymmetry"), "a - b != -(b - a) by the type's own ==");
+      VCHECK(!(d1 < d2) && !(d2 < d1), cat(tn, "-antisymmetry-order"), "a - b and -(b - a) are ordered by <");
+    }
+    if (no_nan(s1) && no_nan(s2)) VCHECK(s1 == s2, cat(tn, "-add-commutes"), "a + b != b + a by the type's own ==");
+    if (no_nan(z1) && no_nan(z2)) VCHECK(z1 == z2 && !(z1 < z2) && !(z2 < z1), cat(tn, "-zero-scale"), "a * 0 and b * 0 differ by the type's own == or <");
+  }
 }
 
 // case: n = [ax, ay, bx, by, k]
@@ -419,6 +467,158 @@ static void run_vtrans(const Case& c) {
   else if (dim == 3) chk([](const uint64_t* q) { return V3(q[0], q[1], q[2]); });
   else chk([](const uint64_t* q) { return V4(q[0], q[1], q[2], q[3]); });
   ctx().nontrivial_case();
+}
+
+// ---- the same laws for double components. case: n = bit patterns of [a.., b.., k]; NaN operands are outside the domain
+static double dbl_operand(const Case& c, size_t i) {
+  double v = c.d(i);
+  if (std::isnan(v)) throw std::logic_error("NaN operand outside the domain");
+  return v;
+}
+static bool all_finite(const double* p, size_t n) {
+  for (size_t i = 0; i < n; i++)
+    if (!std::isfinite(p[i])) return false;
+  return true;
+}
+// classes: does a pair differ only in the sign of a zero somewhere (== must say equal, < must not order them)?
+static void dbl_pair_classes(const double* a, const double* b, size_t n, const char* tn) {
+  bool equal = true, zero_sign = false, inf = false;
+  for (size_t i = 0; i < n; i++) {
+    equal &= (a[i] == b[i]);
+    zero_sign |= (a[i] == 0 && b[i] == 0 && std::signbit(a[i]) != std::signbit(b[i]));
+    inf |= std::isinf(a[i]) || std::isinf(b[i]);
+  }
+  if (equal && zero_sign) ctx().cls(cat(tn, ":equal-up-to-sign-of-zero"));
+  if (inf) ctx().cls(cat(tn, ":infinite-component"));
+  // non-trivial: distinct non-zero operands (as for the integer laws), or operands that are equal as values but not as bytes
+  bool a_zero = true, b_zero = true;
+  for (size_t i = 0; i < n; i++) {
+    a_zero &= (a[i] == 0);
+    b_zero &= (b[i] == 0);
+  }
+  if ((!equal && !a_zero && !b_zero) || (equal && zero_sign)) ctx().nontrivial_case();
+}
+static void run_v2d(const Case& c) {
+  double a[2] = {dbl_operand(c, 0), dbl_operand(c, 1)}, b[2] = {dbl_operand(c, 2), dbl_operand(c, 3)};
+  vec_laws<V2d, 2, double>(a, b, dbl_operand(c, 4), V2d(a[0], a[1]), V2d(b[0], b[1]), "v2d");
+  V2d z;
+  VCHECK(z.x == 0 && z.y == 0, "v2d-default", "default vector is not zero");
+  dbl_pair_classes(a, b, 2, "v2d");
+}
+static void run_v3d(const Case& c) {
+  double a[3] = {dbl_operand(c, 0), dbl_operand(c, 1), dbl_operand(c, 2)}, b[3] = {dbl_operand(c, 3), dbl_operand(c, 4), dbl_operand(c, 5)};
+  V3d va(a[0], a[1], a[2]), vb(b[0], b[1], b[2]);
+  vec_laws<V3d, 3, double>(a, b, dbl_operand(c, 6), va, vb, "v3d");
+  V3d cr = va.cross(vb);
+  double e[3] = {a[1] * b[2] - a[2] * b[1], a[2] * b[0] - a[0] * b[2], a[0] * b[1] - a[1] * b[0]};
+  VCHECK(same_value(cr.x, e[0]) && same_value(cr.y, e[1]) && same_value(cr.z, e[2]), "v3d-cross", "cross product is [", cr.x, ",", cr.y, ",", cr.z, "]");
+  if (all_finite(a, 3) && all_finite(b, 3)) VCHECK(cr.dot(va) == 0 && cr.dot(vb) == 0, "v3d-cross-orthogonal", "cross product not orthogonal to its operands");
+  VCHECK(V3d(V2d(a[0], a[1]), a[2]) == va, "v3d-from-v2", "Vector3(Vector2, z) differs");
+  dbl_pair_classes(a, b, 3, "v3d");
+}
+static void run_v4d(const Case& c) {
+  double a[4], b[4];
+  for (size_t i = 0; i < 4; i++) {
+    a[i] = dbl_operand(c, i);
+    b[i] = dbl_operand(c, 4 + i);
+  }
+  V4d va(a[0], a[1], a[2], a[3]), vb(b[0], b[1], b[2], b[3]);
+  vec_laws<V4d, 4, double>(a, b, dbl_operand(c, 8), va, vb, "v4d");
+  VCHECK(V4d(V3d(a[0], a[1], a[2]), a[3]) == va && V4d(V2d(a[0], a[1]), a[2], a[3]) == va, "v4d-from-smaller", "widening constructors differ");
+  dbl_pair_classes(a, b, 4, "v4d");
+}
+// transitivity of operator< (and of the equivalence it induces, which must be ==) on a triple; n = [dim, bit patterns of a.., b.., c..]
+static void run_vtransd(const Case& c) {
+  uint64_t dim = c.u(0);
+  if (dim < 2 || dim > 4 || c.n.size() < 1 + 3 * dim) throw std::logic_error("short case");
+  double q[12];
+  for (size_t i = 0; i < 3 * dim; i++) q[i] = dbl_operand(c, 1 + i);
+  auto chk = [&](auto mk) {
+    auto A = mk(q), B = mk(q + dim), C = mk(q + 2 * dim);
+    if ((A < B) && (B < C)) VCHECK(A < C, "less-transitive", "a<b, b<c but not a<c (dim ", dim, ")");
+    bool iab = !(A < B) && !(B < A), ibc = !(B < C) && !(C < B), iac = !(A < C) && !(C < A);
+    if (iab && ibc) VCHECK(iac, "less-incomparable-transitive", "equivalence induced by < not transitive");
+    VCHECK(iab == (A == B) && ibc == (B == C) && iac == (A == C), cat("less-consistent-with-eq:v", dim, "d"), "two vectors are unordered by < but not ==, or the reverse (dim ", dim, ")");
+    if ((A == B) && (B == C)) VCHECK(A == C, cat("eq-transitive:v", dim, "d"), "a==b, b==c but not a==c");
+  };
+  if (dim == 2) chk([](const double* p) { return V2d(p[0], p[1]); });
+  else if (dim == 3) chk([](const double* p) { return V3d(p[0], p[1], p[2]); });
+  else chk([](const double* p) { return V4d(p[0], p[1], p[2], p[3]); });
+  ctx().nontrivial_case();
+}
+
+// Matrix4<double>: equality is the entrywise ==, products against the reference sums (entries are small dyadic values:
+// every product and sum is exact, so the value does not depend on the order of accumulation; the sign of a zero result
+// does, and == does not see it). case: n = bit patterns of [16 entries of A, 16 of B, 4 of v, scalar] (row-major)
+static void run_m4d(const Case& c) {
+  M4d A, B;
+  double ra[4][4], rb[4][4], v[4];
+  for (int r = 0; r < 4; r++)
+    for (int k = 0; k < 4; k++) {
+      ra[r][k] = dbl_operand(c, r * 4 + k);
+      rb[r][k] = dbl_operand(c, 16 + r * 4 + k);
+      if (!std::isfinite(ra[r][k]) || !std::isfinite(rb[r][k]) || fabs(ra[r][k]) > 16 || fabs(rb[r][k]) > 16) throw std::logic_error("entry outside the domain");
+      A.m[k][r] = ra[r][k];
+      B.m[k][r] = rb[r][k];
+    }
+  for (int k = 0; k < 4; k++) {
+    v[k] = dbl_operand(c, 32 + k);
+    if (!std::isfinite(v[k]) || fabs(v[k]) > 16) throw std::logic_error("entry outside the domain");
+  }
+  double s = dbl_operand(c, 36);
+  if (!std::isfinite(s) || fabs(s) > 16) throw std::logic_error("scalar outside the domain");
+  V4d vv(v[0], v[1], v[2], v[3]);
+  auto eld = [](const M4d& m, int r, int k) { return m.m[k][r]; };
+  double ab[4][4], bv[4], abv[4];
+  bool same = true, zero_sign = false;
+  for (int r = 0; r < 4; r++) {
+    bv[r] = 0;
+    for (int k = 0; k < 4; k++) {
+      bv[r] += rb[r][k] * v[k];
+      ab[r][k] = 0;
+      for (int z = 0; z < 4; z++) ab[r][k] += ra[r][z] * rb[z][k];
+      same &= (ra[r][k] == rb[r][k]);
+      zero_sign |= (ra[r][k] == 0 && rb[r][k] == 0 && std::signbit(ra[r][k]) != std::signbit(rb[r][k]));
+    }
+  }
+  for (int r = 0; r < 4; r++) {
+    abv[r] = 0;
+    for (int k = 0; k < 4; k++) abv[r] += ab[r][k] * v[k];
+  }
+  VCHECK((A == B) == same && (A != B) == !same && (B == A) == same, "m4d-eq", "== disagrees with entrywise equality");
+  VCHECK(A == A && !(A != A), "m4d-eq-reflexive", "A != A");
+  M4d AB = A * B;
+  for (int r = 0; r < 4; r++)
+    for (int k = 0; k < 4; k++) VCHECK(eld(AB, r, k) == ab[r][k], "m4d-product", "(A*B)[", r, "][", k, "] is ", eld(AB, r, k), " expected ", ab[r][k]);
+  V4d Bv = B * vv;
+  for (int r = 0; r < 4; r++) VCHECK(Bv.at(r) == bv[r], "m4d-vector-product", "(B*v)[", r, "] is ", Bv.at(r), " expected ", bv[r]);
+  V4d l = (A * B) * vv, rr = A * (B * vv);
+  for (int r = 0; r < 4; r++) VCHECK(l.at(r) == abv[r] && rr.at(r) == abv[r], "m4d-assoc-value", "row ", r, ": (AB)v = ", l.at(r), ", A(Bv) = ", rr.at(r), " expected ", abv[r]);
+  VCHECK(l == rr && !(l != rr), "m4d-assoc", "(AB)v != A(Bv) by Vector4's own == although every component has the same value");
+  M4d C = A;
+  C *= B;
+  VCHECK(C == AB, "m4d-mul-assign", "A *= B differs from A * B");
+  M4d T = A.transposition();
+  for (int r = 0; r < 4; r++)
+    for (int k = 0; k < 4; k++) VCHECK(eld(T, r, k) == ra[k][r], "m4d-transpose", "transposition()[", r, "][", k, "]");
+  VCHECK(T.transposition() == A, "m4d-transpose-twice", "transpose twice is not the identity");
+  M4d T2 = A;
+  T2.transpose();
+  VCHECK(T2 == T, "m4d-transpose-inplace", "transpose() differs from transposition()");
+  M4d I;
+  VCHECK(A * I == A && I * A == A, "m4d-identity-product", "A*I != A by Matrix4's own ==");
+  M4d S = A + B, D = A - B, D2 = (B - A) * -1.0, P = A * s;
+  for (int r = 0; r < 4; r++)
+    for (int k = 0; k < 4; k++) {
+      VCHECK(eld(S, r, k) == ra[r][k] + rb[r][k], "m4d-add", "entry");
+      VCHECK(eld(D, r, k) == ra[r][k] - rb[r][k], "m4d-sub", "entry");
+      VCHECK(eld(P, r, k) == ra[r][k] * s, "m4d-scale", "entry");
+    }
+  VCHECK(D == D2 && !(D != D2), "m4d-antisymmetry", "A - B != (B - A) * -1 by Matrix4's own ==");
+  VCHECK((A + B) == (B + A), "m4d-add-commutes", "A + B != B + A");
+  VCHECK((A * 0.0) == (B * 0.0), "m4d-zero-scale", "A * 0 != B * 0");
+  if (same && zero_sign) ctx().cls("m4d:equal-up-to-sign-of-zero");
+  if (!(A == I) && !(B == I)) ctx().nontrivial_case();
 }
 
 // element (row r, column c) of a phosg matrix is m[c][r] (see operator*(Vector4))
@@ -601,8 +801,42 @@ static uint64_t gen_in_type(uint64_t code) {
   return v;
 }
 
+// Worst-case inputs of Euclid's algorithm: a pair built backwards from (g, 0) through a continued fraction with small
+// partial quotients, h_{n+1} = q_n * h_n + h_{n-1} (all ones = consecutive Fibonacci numbers times g: the longest remainder
+// sequence for operands of that size, about 1.44 * log2(max) steps), carried on until the type's maximum unless cut short.
+static void euclid_chain(uint64_t code, uint64_t g, uint64_t max_steps, const std::function<uint64_t()>& quotient, uint64_t* a, uint64_t* b) {
+  uint64_t mx = type_max(code);
+  uint64_t lo = 0, hi = g;
+  for (uint64_t n = 0; n < max_steps; n++) {
+    uint64_t q = quotient();
+    if (q == 0 || hi == 0 || q > (mx - lo) / hi) break; // q * hi + lo would leave the type
+    uint64_t nxt = q * hi + lo;
+    lo = hi;
+    hi = nxt;
+  }
+  *a = hi;
+  *b = lo;
+}
+
 static Case gen_gcd() {
   uint64_t code = vg::below(8);
+  if (vg::chance(1, 4)) {
+    uint64_t g = vg::coin() ? 1 : vg::chance(1, 2) ? 1 + vg::below(12) : 1 + vg::below(1000);
+    if (g > type_max(code)) g = 1;
+    uint64_t steps = vg::chance(3, 4) ? 200 : vg::below(100);
+    uint64_t style = vg::below(4);
+    uint64_t a, b;
+    euclid_chain(code, g, steps, [&]() -> uint64_t {
+      switch (style) {
+        case 0: return 1; // Fibonacci-type
+        case 1: return vg::chance(7, 8) ? 1 : 2 + vg::below(3);
+        case 2: return 1 + vg::below(3);
+        default: return vg::chance(1, 16) ? 1 + vg::below(1000) : 1 + vg::below(2);
+      }
+    }, &a, &b);
+    ctx().cls("gcd:euclid-worst-case-chain");
+    return vg::coin() ? Case("gcd").N(code).N(a).N(b) : Case("gcd").N(code).N(b).N(a);
+  }
   uint64_t a = gen_in_type(code), b = gen_in_type(code);
   if (vg::chance(1, 3)) {
     // force a common factor
@@ -731,6 +965,57 @@ static Case gen_m4inv() {
   return c;
 }
 
+// components for the double instantiations: signed zeros, small dyadic values (exact arithmetic), infinities
+static double gen_dcomp(bool with_inf) {
+  switch (vg::below(with_inf ? 8 : 7)) {
+    case 0: case 1: return 0.0;
+    case 2: case 3: return -0.0;
+    case 7: return vg::coin() ? INFINITY : -INFINITY;
+    default: return vg::pick<double>({1.0, -1.0, 0.5, -0.5, 1.5, -1.5, 2.0, -2.0, 3.0, -3.0, 4.0, -4.0});
+  }
+}
+// the second operand: fresh, or the first one with the sign of some zeros flipped (equal as values, different as bytes)
+// and possibly one component changed
+static void gen_dsecond(const double* a, double* b, size_t n, bool with_inf) {
+  if (vg::coin()) {
+    for (size_t i = 0; i < n; i++) b[i] = gen_dcomp(with_inf);
+    return;
+  }
+  for (size_t i = 0; i < n; i++) b[i] = (a[i] == 0 && vg::coin()) ? -a[i] : a[i];
+  if (vg::chance(1, 3)) b[vg::below(n)] = gen_dcomp(with_inf);
+}
+static Case gen_vd(const char* name, size_t dim) {
+  double a[4], b[4];
+  for (size_t i = 0; i < dim; i++) a[i] = gen_dcomp(true);
+  gen_dsecond(a, b, dim, true);
+  Case c(name);
+  for (size_t i = 0; i < dim; i++) c.D(a[i]);
+  for (size_t i = 0; i < dim; i++) c.D(b[i]);
+  c.D(vg::pick<double>({0.0, -0.0, 1.0, -1.0, 0.5, -2.0, 3.0, INFINITY, -INFINITY}));
+  return c;
+}
+static Case gen_v2d() { return gen_vd("v2d", 2); }
+static Case gen_v3d() { return gen_vd("v3d", 3); }
+static Case gen_v4d() { return gen_vd("v4d", 4); }
+static Case gen_vtransd() {
+  uint64_t dim = 2 + vg::below(3);
+  Case c("vtransd");
+  c.N(dim);
+  for (uint64_t k = 0; k < 3 * dim; k++) c.D(vg::pick<double>({0.0, -0.0, 0.0, -0.0, 1.0, -1.0, INFINITY, -INFINITY}));
+  return c;
+}
+static Case gen_m4d() {
+  double a[16], b[16];
+  for (int k = 0; k < 16; k++) a[k] = gen_dcomp(false);
+  gen_dsecond(a, b, 16, false);
+  Case c("m4d");
+  for (int k = 0; k < 16; k++) c.D(a[k]);
+  for (int k = 0; k < 16; k++) c.D(b[k]);
+  for (int k = 0; k < 4; k++) c.D(gen_dcomp(false));
+  c.D(vg::pick<double>({0.0, -0.0, 1.0, -1.0, 0.5, -2.0, 3.0}));
+  return c;
+}
+
 // ---------------------------------------------------------------- enumerators
 
 static void enum_gcd(Enum& e) {
@@ -758,7 +1043,30 @@ static void enum_gcd(Enum& e) {
       for (size_t j = 0; j < bv.size(); j++) e.exec(Case("gcd").N(code).N(bv[i]).N(bv[j]));
     }
   }
-  e.complete(cat("all pairs in [0,", lim, "]^2 and all pairs of {2^k-1,2^k,2^k+1,max,max-1,max-2,max/2} for each of u8..u64,s8..s64"));
+  // worst-case inputs of Euclid's algorithm: consecutive terms of every additive sequence x_{n+1} = x_n + x_{n-1} from seeds
+  // 0 <= x_0 <= x_1 <= 6 (Fibonacci, Lucas, ...) up to the type's maximum, times the common factors 1,2,3,5,7, both orders
+  for (uint64_t code = 0; code < 8 && !e.stop; code++) {
+    uint64_t tm = type_max(code);
+    for (uint64_t s0 = 0; s0 <= 6 && !e.stop; s0++)
+      for (uint64_t s1 = std::max<uint64_t>(s0, 1); s1 <= 6 && !e.stop; s1++, idx++) {
+        if (!e.mine(idx)) continue;
+        uint64_t x = s0, y = s1;
+        while (y <= tm) {
+          for (uint64_t f : {1, 2, 3, 5, 7}) {
+            if (y > tm / f) break;
+            e.exec(Case("gcd").N(code).N(y * f).N(x * f));
+            e.exec(Case("gcd").N(code).N(x * f).N(y * f));
+          }
+          if (y > tm - x) break;
+          uint64_t nxt = x + y;
+          x = y;
+          y = nxt;
+        }
+      }
+  }
+  e.complete(cat("all pairs in [0,", lim, "]^2 and all pairs of {2^k-1,2^k,2^k+1,max,max-1,max-2,max/2} for each of u8..u64,s8..s64; consecutive terms of every "
+                 "additive sequence x(n+1)=x(n)+x(n-1) with seeds 0<=x0<=x1<=6 up to the maximum of each type, times common factors 1,2,3,5,7, both orders "
+                 "(worst case of Euclid's algorithm)"));
 }
 
 static void enum_log2i(Enum& e) {
@@ -858,6 +1166,74 @@ static void enum_vtrans(Enum& e) {
   e.complete("all triples of Vector2 and Vector3 over {-1,0,1} components (transitivity of <)");
 }
 
+static void enum_v2d(Enum& e) {
+  const double set[8] = {0.0, -0.0, 1.0, -1.0, 0.5, 2.0, INFINITY, -INFINITY};
+  uint64_t idx = 0;
+  for (double ax : set)
+    for (double ay : set) {
+      if (e.stop) break;
+      if (!e.mine(idx++)) continue;
+      for (double bx : set)
+        for (double by : set)
+          for (double k : {-0.0, 1.0, -2.0, 0.5}) e.exec(Case("v2d").D(ax).D(ay).D(bx).D(by).D(k));
+    }
+  e.complete("all pairs of Vector2<double> with components in {+0,-0,1,-1,0.5,2,+inf,-inf} x scalar in {-0,1,-2,0.5}");
+}
+static void enum_v3d(Enum& e) {
+  const double set[4] = {0.0, -0.0, 1.0, -1.5};
+  const double ks[5] = {-0.0, 1.0, -2.0, 0.5, INFINITY};
+  uint64_t idx = 0;
+  for (uint64_t code = 0; code < 4096 && !e.stop; code++) {
+    if (!e.mine(idx++)) continue;
+    Case c("v3d");
+    uint64_t t = code;
+    for (int k = 0; k < 6; k++) {
+      c.D(set[t % 4]);
+      t /= 4;
+    }
+    c.D(ks[code % 5]);
+    e.exec(c);
+  }
+  e.complete("all pairs of Vector3<double> with components in {+0,-0,1,-1.5}");
+}
+static void enum_v4d(Enum& e) {
+  const double set[3] = {0.0, -0.0, 1.0};
+  const double ks[5] = {-0.0, 1.0, -2.0, 0.5, INFINITY};
+  uint64_t idx = 0;
+  for (uint64_t code = 0; code < 6561 && !e.stop; code++) {
+    if (!e.mine(idx++)) continue;
+    Case c("v4d");
+    uint64_t t = code;
+    for (int k = 0; k < 8; k++) {
+      c.D(set[t % 3]);
+      t /= 3;
+    }
+    c.D(ks[code % 5]);
+    e.exec(c);
+  }
+  e.complete("all pairs of Vector4<double> with components in {+0,-0,1}");
+}
+static void enum_vtransd(Enum& e) {
+  const double set[4] = {0.0, -0.0, 1.0, -1.0};
+  uint64_t idx = 0;
+  for (uint64_t dim = 2; dim <= 3; dim++) {
+    uint64_t base = dim == 2 ? 4 : 3, comps = 3 * dim, total = 1;
+    for (uint64_t k = 0; k < comps; k++) total *= base;
+    for (uint64_t code = 0; code < total && !e.stop; code++, idx++) {
+      if (!e.mine(idx)) continue;
+      Case c("vtransd");
+      c.N(dim);
+      uint64_t t = code;
+      for (uint64_t k = 0; k < comps; k++) {
+        c.D(set[t % base]);
+        t /= base;
+      }
+      e.exec(c);
+    }
+  }
+  e.complete("all triples of Vector2<double> over {+0,-0,1,-1} and of Vector3<double> over {+0,-0,1} components (transitivity of < and of the equivalence it induces, which must be ==)");
+}
+
 int main(int argc, char** argv) {
   std::vector<SubCheck> checks;
   checks.push_back({"gcd", run_gcd, gen_gcd, 200000, 1500000, 100, enum_gcd});
@@ -869,7 +1245,12 @@ int main(int argc, char** argv) {
   checks.push_back({"v3", run_v3, nullptr, 0, 0, 100, enum_v3});
   checks.push_back({"v4", run_v4, gen_v4, 100000, 400000, 100, nullptr});
   checks.push_back({"vtrans", run_vtrans, gen_vtrans, 20000, 100000, 100, enum_vtrans});
+  checks.push_back({"v2d", run_v2d, gen_v2d, 20000, 100000, 100, enum_v2d});
+  checks.push_back({"v3d", run_v3d, gen_v3d, 30000, 150000, 100, enum_v3d});
+  checks.push_back({"v4d", run_v4d, gen_v4d, 50000, 250000, 100, enum_v4d});
+  checks.push_back({"vtransd", run_vtransd, gen_vtransd, 20000, 100000, 100, enum_vtransd});
   checks.push_back({"m4", run_m4, gen_m4, 50000, 300000, 100, nullptr});
+  checks.push_back({"m4d", run_m4d, gen_m4d, 40000, 250000, 100, nullptr});
   checks.push_back({"m4inv", run_m4inv, gen_m4inv, 50000, 300000, 100, nullptr});
   return main_(argc, argv, checks);
 }
